@@ -426,6 +426,14 @@ fn oracle_c03(rep: &mut Report, c: &EmitCase, em: &Emitted) {
         let n0 = folded.len();
         folded.dedup();
         if folded.len() != n0 { rep.bump("c03_outside_D_input_names_clash"); continue; }
+        // a body member of the document that a same-named parameter shadowed never reaches the request (recorded finding)
+        if let Some(props) = c.doc["paths"][&o.path][&o.method]["requestBody"]["content"]["application/json"]["schema"].get("properties").and_then(|p| p.as_object()) {
+            for k in props.keys() {
+                if o.parameters.iter().any(|p| &p.name == k && p.location != hir::Location::Body) && !o.parameters.iter().any(|p| &p.name == k && p.location == hir::Location::Body) {
+                    rep.oracle_fail("bodyMemberNotSent", vec!["bodyNonBodyNameClash".to_string()], &case, &format!("{} {}: body member {k} is never sent because a parameter has the same name", o.method, o.path));
+                }
+            }
+        }
         // an array / free-form body is one unnamed value: it must be the body itself, not a member called `body`
         let body_schema = c.doc["paths"][&o.path][&o.method]["requestBody"]["content"]["application/json"].get("schema").cloned();
         if let Some(bs) = body_schema {
